@@ -41,6 +41,12 @@ def main():
     src = a.src or f"/tmp/seed_out/{a.id}"
     patch = os.path.join(src, "patch.diff"); demo = os.path.join(src, "demo.cpp")
     meta = json.load(open(os.path.join(src, "meta.json"))) if os.path.exists(os.path.join(src, "meta.json")) else {}
+    stored = os.path.join(VERIF, "seeded", a.id, "meta.json")
+    if os.path.exists(stored):
+        old = json.load(open(stored))
+        for k2 in ("confirmed", "history", "note"):
+            if k2 in old and k2 not in meta:
+                meta[k2] = old[k2]
     flags = a.demo_flags.split() if a.demo_flags else []
     wt = f"/tmp/ezc3d-seedwt.{os.getpid()}"
     builds_before = set(glob.glob(os.path.join(VERIF, "build", "*-*")))
@@ -71,6 +77,9 @@ def main():
             sigs = [l.strip()[11:] for l in r.stdout.splitlines() if l.strip().startswith("signature:")]
             det[p] = {"exit": r.returncode, "violations": len([l for l in r.stdout.splitlines() if l.startswith("VIOLATION")]), "signatures": sigs[:6], "wall_s": round(time.time() - t0, 1)}
             print(f"[seed {a.id}] check {p}: exit={r.returncode} violations={det[p]['violations']} {det[p]['wall_s']}s :: " + " ; ".join(sigs[:3]))
+        prev = meta.get("confirmed", {}).get("checks", {})   # keep the results of earlier runs for checks not re-run now
+        for k2, v2 in prev.items():
+            det.setdefault(k2, v2)
         conf["checks"] = det
         valid = conf["repo_tests_pass_with_patch"] and rc0 is not None and all(c == 0 for c in rc0) and rc1 is not None and any(c != 0 for c in rc1)
         conf["valid_seed"] = bool(valid)
